@@ -51,7 +51,7 @@ def check(ctx):
     REPL = "vec+(for(%s){if(let v1::Some($)=slice::get(P2,elem(%s).1)){(elem(%s).0,slice::get(P2,elem(%s).1)@v1::Some.0)}else{'()'}})" % (S_, S_, S_, S_)
     PATH = "mut[%s.path;substitutes::replace_path_params_recursively(&self,%s,P3) if %s~TypeParamMapping::Specified($)&&Not(slice::is_empty(%s))]" % (SUB, REPL, MAP, REPL)
     expect_fn(ctx, "C07.3", "same-key/lookup", "TypeSubstitutes::for_path_with_params",
-              "Some(match(%s){TypeParamMapping::Specified($)=>type_path::TypePathType::Path{params:Vec::new(),path:%s};TypeParamMapping::PassThrough=>type_path::TypePathType::Path{params:P2,path:%s.path}})" % (MAP, PATH, SUB),
+              "Some(if(let TypeParamMapping::Specified($)=%s){type_path::TypePathType::Path{params:Vec::new(),path:%s}}else{type_path::TypePathType::Path{params:P2,path:%s.path}})" % (MAP, PATH, SUB),
               "look-up in the same map with the same key; the rule's own path and mapping are used. PassThrough: substitute path + the resolved arguments unchanged, in order. "
               "Specified: each (ident, idx) is paired with params.get(idx) (identity, no arithmetic), idents replaced inside the substitute path, no extra arguments appended", "scale_typegen")
     fn = q.fn1(P, "TypeSubstitutes::parse_path_param_mapping", "scale_typegen")
